@@ -199,6 +199,8 @@ pub fn property() -> Property {
         move |c: &History, st: &mut Stats| f(c, st)
       }),
       prop_sub("server_export_import", 1500, 40000, strat, oracle),
+      crate::fuzzentry::fuzz_sub("fuzzbytes_server", "server", "C11", 150, 3000),
+      crate::fuzzentry::artefact_sub("artefact_server", "server", "C11"),
     ],
   }
 }
